@@ -300,6 +300,7 @@ type fakeMeta struct {
 	release chan saveOutcome
 	// invoked for every durable per-vBucket write (under the lock)
 	onWrite func(call *saveCall, vb uint16, t ckTuple)
+	clears  int
 }
 
 func newFakeMeta() *fakeMeta {
@@ -393,7 +394,18 @@ func (m *fakeMeta) Load(vbIds []uint16, bucketUUID string) (*wrapper.ConcurrentS
 	return st, exist, nil
 }
 
-func (m *fakeMeta) Clear([]uint16) error { return nil }
+func (m *fakeMeta) Clear([]uint16) error {
+	m.mu.Lock()
+	m.clears++
+	m.mu.Unlock()
+	return nil
+}
+
+func (m *fakeMeta) clearCount() int {
+	m.mu.Lock()
+	defer m.mu.Unlock()
+	return m.clears
+}
 
 func (m *fakeMeta) snapshot() map[uint16]ckTuple {
 	m.mu.Lock()
